@@ -1,2 +1,38 @@
-(* C06 — placeholder while the model is validated; theorems follow *)
+(* C06 — logical constraint methods penalise exactly the violating assignments.
+   Statements only; proofs in Proofs/LogicProofs.v (on top of C02's add_constraint_eq_zero theorem,
+   C05_tree and C07_denote). *)
 From QV.Model Require Import Base Matrix Arith Expr Extrema Sat PCBO Logic.
+From QV.Proofs Require Import BaseProofs KeyProofs ArithProofs SatProofs PenaltyArith PCBOProofs LogicProofs.
+Open Scope Q_scope.
+
+(* each of the sixteen methods add_constraint_G / add_constraint_eq_G, any admissible arity, operands that are labels or
+   boolean-valued expressions (sx_ok: 0/1-valued leaves at every assignment), any lam <> 0:
+   the added terms are lam * G, no ancilla is created, G is 0 where the gate relation holds and >= 1 elsewhere,
+   and the recorded == constraint holds exactly on those assignments (so is_solution_valid reports them) *)
+Theorem C06_logic : forall g is_eq m ops lam m' w t,
+  add_logic g is_eq m ops lam = Ok (m', w, t) -> bkind (kd m) -> ~ lam == 0 ->
+  (forall x, boolean_env x -> Forall (sx_ok x) ops) ->
+  exists G Pc, step_ok m m' lam G /\ anc m' = anc m /\ kd m' = kd m /\ cons m' = cons m ++ [(REq, Pc)]
+    /\ (forall x, boolean_env x -> (eval x Pc == 0 <-> logic_holds g is_eq x ops = true))
+    /\ forall x, boolean_env x ->
+         0 <= G x /\ (logic_holds g is_eq x ops = true -> G x == 0) /\ (logic_holds g is_eq x ops = false -> 1 <= G x).
+Proof. exact add_logic_spec. Qed.
+Print Assumptions C06_logic.
+
+(* the polynomial each method hands to add_constraint_eq_zero: integer valued, inside the bounds the method states,
+   zero exactly where the gate relation holds; methods below the documented arity return ValueError *)
+Theorem C06_poly : forall g is_eq ops P lo hi,
+  logic_poly g is_eq ops = Ok (P, lo, hi) -> (forall x, boolean_env x -> Forall (sx_ok x) ops) -> psem g is_eq ops P lo hi.
+Proof. exact logic_poly_sem. Qed.
+Print Assumptions C06_poly.
+
+Theorem C06_arity : forall a v,
+  logic_poly GAnd true [a; v] = Err ValueError /\ logic_poly GOr true [a; v] = Err ValueError
+  /\ logic_poly GNand true [a; v] = Err ValueError /\ logic_poly GNor true [a; v] = Err ValueError.
+Proof. intros a v. repeat split. Qed.
+Print Assumptions C06_arity.
+
+Example C06_example :
+  exists m' w t, add_logic GXor true (empty_model KPcbo) [SLbl 0%nat; SLbl 1%nat; SGate GAnd [SLbl 2%nat; SLbl 3%nat]; SLbl 1%nat] 2 = Ok (m', w, t)
+                 /\ anc m' = 0%nat /\ length (cons m') = 1%nat.
+Proof. eexists. eexists. eexists. vm_compute. repeat split. Qed.
